@@ -13,6 +13,7 @@
 #include <stdexcept>  // std::invalid_argument
 
 #include "Arnoldi.h"
+#include "../Util/VerifHooks.h"
 
 namespace Spectra {
 
@@ -26,6 +27,9 @@ namespace Spectra {
 template <typename Scalar, typename ArnoldiOpType>
 class Lanczos : public Arnoldi<Scalar, ArnoldiOpType>
 {
+#ifdef SPECTRA_VERIF
+    friend struct ::SpectraVerifAccess;
+#endif
 private:
     // The real part type of the matrix element
     using RealScalar = typename Eigen::NumTraits<Scalar>::Real;
@@ -181,6 +185,7 @@ public:
 
         // Indicate that this is a step-m factorization
         m_k = to_m;
+        SPECTRA_VERIF_OBSERVE("lanczos.factorize", this);
     }
 
     // Apply H -> Q'HQ, where Q is from a tridiagonal QR decomposition
